@@ -345,3 +345,147 @@ Example c06_reject_cur_nonvacuous :
      {| c06_shape := [4]; c06_dims := [0]; c06_name := 7; c06_grid := 9; c06_data := [1; 2; 3; 4] |} = C06_ok r
      /\ c06_data r = [30].
 Proof. split; [reflexivity|]. eexists. split; [vm_compute; reflexivity|reflexivity]. Qed.
+
+(* ========================================================================= *)
+(* round 4: additivity over face sets, renumbering, leading-dimension order,   *)
+(* boolean data, independence from the grid's stored areas and history         *)
+From Coq Require Import Permutation.
+
+(* the dot product as a sum over (area, value) pairs *)
+Lemma c06_dot_combine areas row :
+  c06_dot areas row = fold_right Z.add 0 (map (fun p => fst p * snd p) (combine areas row)).
+Proof.
+  revert row. induction areas as [|a areas IH]; intros [|x row]; cbn [c06_dot combine map fold_right]; try reflexivity.
+  rewrite IH. reflexivity.
+Qed.
+
+(* additivity over disjoint face sets (sub-grids): faces 0..n1-1 and the rest *)
+Lemma c06_dot_app a1 a2 r1 r2 :
+  length a1 = length r1 -> c06_dot (a1 ++ a2) (r1 ++ r2) = c06_dot a1 r1 + c06_dot a2 r2.
+Proof.
+  revert r1. induction a1 as [|a a1 IH]; intros [|x r1] H; cbn in H; try discriminate; [reflexivity|].
+  cbn [app c06_dot]. rewrite IH by lia. lia.
+Qed.
+
+Lemma c06_sum_pairs_perm (l l' : list (Z * Z)) :
+  Permutation l l' ->
+  fold_right Z.add 0 (map (fun p => fst p * snd p) l) = fold_right Z.add 0 (map (fun p => fst p * snd p) l').
+Proof. intros H. induction H; cbn [map fold_right]; lia. Qed.
+
+(* renumbering the faces (the same permutation applied to the areas and to the values) changes nothing *)
+Lemma c06_dot_renumber areas row areas' row' :
+  Permutation (combine areas row) (combine areas' row') -> c06_dot areas row = c06_dot areas' row'.
+Proof. intros H. rewrite !c06_dot_combine. apply c06_sum_pairs_perm. exact H. Qed.
+
+(* order of the leading dimensions: an array with leading shape (k1, k2) and its transpose (k2, k1)
+   integrate to transposed results *)
+Lemma c06_leading_transpose areas k1 k2 m data data' :
+  length areas = m ->
+  (forall i j f, (i < k1)%nat -> (j < k2)%nat -> (f < m)%nat ->
+      nth ((j * k1 + i) * m + f) data' 0 = nth ((i * k2 + j) * m + f) data 0) ->
+  forall i j, (i < k1)%nat -> (j < k2)%nat ->
+    nth (j * k1 + i) (c06_einsum areas [Z.of_nat k2; Z.of_nat k1; Z.of_nat m] data') 0 =
+    nth (i * k2 + j) (c06_einsum areas [Z.of_nat k1; Z.of_nat k2; Z.of_nat m] data) 0.
+Proof.
+  intros Hl H i j Hi Hj.
+  assert (P1 : Z.to_nat (c06_prod (removelast [Z.of_nat k2; Z.of_nat k1; Z.of_nat m])) = (k2 * k1)%nat).
+  { cbn [removelast c06_prod fold_right]. lia. }
+  assert (P2 : Z.to_nat (c06_prod (removelast [Z.of_nat k1; Z.of_nat k2; Z.of_nat m])) = (k1 * k2)%nat).
+  { cbn [removelast c06_prod fold_right]. lia. }
+  rewrite !c06_einsum_nth; cbn [last]; rewrite ?Nat2Z.id; try assumption; try nia.
+  apply c06_sum_ext. intros f Hf. rewrite H by assumption. reflexivity.
+Qed.
+
+(* boolean (0/1) data: the integral is the area of the selected faces -- exact, nothing truncated *)
+Lemma c06_dot_mask areas mask :
+  Forall (fun m => m = 0 \/ m = 1) mask -> c06_dot areas mask = c06_mask_sum areas mask.
+Proof.
+  revert mask. induction areas as [|a areas IH]; intros [|m mask] H; cbn [c06_dot c06_mask_sum]; try reflexivity.
+  inversion H as [|? ? Hm Hr]; subst. rewrite IH by exact Hr. destruct Hm as [-> | ->]; cbn; lia.
+Qed.
+
+(* integer data: the integral is the exact integer combination of the (scaled) areas; scaling the data
+   by an integer scales the integral by the same integer (no truncation anywhere) *)
+Lemma c06_dot_scale areas row c : c06_dot areas (map (Z.mul c) row) = c * c06_dot areas row.
+Proof.
+  revert row. induction areas as [|a areas IH]; intros [|x row]; cbn [map c06_dot]; try lia. rewrite IH. lia.
+Qed.
+
+(* ---- the grid's stored areas and history ---- *)
+Lemma c06_integrate_grid_state_free areas_of g s s' rule order a :
+  c06_integrate_grid areas_of g s rule order a = c06_integrate_grid areas_of g s' rule order a.
+Proof. reflexivity. Qed.
+
+(* after ANY history (earlier integrates, compute_face_areas calls, face_areas reads, assignments of
+   face_areas) integrate(rule, order) is the area-weighted sum with the freshly computed areas *)
+Lemma c06_history_independent areas_of g dr dor ops s rule order a :
+  c06_integrate_grid areas_of g (c06_grun areas_of dr dor s ops) rule order a =
+  c06_integrate_cur g (areas_of rule order) a.
+Proof. reflexivity. Qed.
+
+(* integrate never changes what the grid stores *)
+Lemma c06_integrate_keeps_state areas_of dr dor s rule order a :
+  c06_gstep areas_of dr dor s (C06_op_integrate rule order a) = s.
+Proof. reflexivity. Qed.
+
+(* ---- which dimension is integrated ---- *)
+(* a last dimension NAMED n_face of n_face entries is always integrated ... *)
+Lemma c06_face_dim_integrated g areas a :
+  c06_shape a <> [] -> last (c06_dims a) 3 = 0 -> last (c06_shape a) 0 = c06_nface g ->
+  exists r, c06_integrate_cur g areas a = C06_ok r.
+Proof.
+  intros Hne Hd Hs. unfold c06_integrate_cur, c06_integrate.
+  destruct (rev (c06_shape a)) as [|x t] eqn:E.
+  - exfalso. apply Hne. rewrite <- (rev_involutive (c06_shape a)), E. reflexivity.
+  - pose proof (c06_rev_cons _ _ _ 0 E) as (Hl & _). rewrite Hd. cbn [andb Z.eqb].
+    rewrite <- Hl, Hs, Z.eqb_refl. eexists. reflexivity.
+Qed.
+
+(* ... but the code still decides by SIZE for every other name: a last dimension named "time" that
+   happens to have n_face entries is integrated as if it were the face dimension (PARTIAL: the property
+   quantifies over arrays whose face dimension is last, where this cannot be observed) *)
+Lemma c06_only_face_named_dims_refuted :
+  exists g areas a r, last (c06_dims a) 3 = 3 /\ c06_wf a /\ c06_integrate_cur g areas a = C06_ok r.
+Proof.
+  exists {| c06_nface := 2; c06_nnode := 4; c06_nedge := 5 |}, [3; 4],
+         {| c06_shape := [2; 2]; c06_dims := [0; 3]; c06_name := 7; c06_grid := 9; c06_data := [1; 2; 3; 4] |}.
+  eexists. split; [reflexivity|]. split; [|vm_compute; reflexivity].
+  unfold c06_wf; cbn. repeat split; try reflexivity. repeat constructor; lia.
+Qed.
+
+(* ---- non-vacuity ---- *)
+Example c06_additive_nonvacuous :
+  c06_dot ([2; 3] ++ [5]) ([10; 100] ++ [7]) = c06_dot [2; 3] [10; 100] + c06_dot [5] [7] /\ c06_dot [2; 3] [10; 100] = 320.
+Proof. split; reflexivity. Qed.
+
+Example c06_renumber_nonvacuous :
+  Permutation (combine [2; 3; 5] [10; 100; 7]) (combine [5; 2; 3] [7; 10; 100]) /\
+  c06_dot [2; 3; 5] [10; 100; 7] = 355 /\ c06_dot [5; 2; 3] [7; 10; 100] = 355.
+Proof.
+  split; [|split; reflexivity]. cbn [combine].
+  apply Permutation_sym. apply (Permutation_cons_app [(2, 10); (3, 100)] [] (5, 7)). rewrite app_nil_r. apply Permutation_refl.
+Qed.
+
+Example c06_transpose_nonvacuous :
+  c06_einsum [2; 3] [2; 3; 2] [1; 2; 3; 4; 5; 6; 7; 8; 9; 10; 11; 12] = [8; 18; 28; 38; 48; 58] /\
+  c06_einsum [2; 3] [3; 2; 2] [1; 2; 7; 8; 3; 4; 9; 10; 5; 6; 11; 12] = [8; 38; 18; 48; 28; 58].
+Proof. split; reflexivity. Qed.
+
+Example c06_mask_nonvacuous : c06_dot [2; 3; 5; 7] [1; 0; 1; 1] = 14 /\ c06_mask_sum [2; 3; 5; 7] [1; 0; 1; 1] = 14.
+Proof. split; reflexivity. Qed.
+
+Example c06_history_nonvacuous :
+  let areas_of := fun rule order => if rule =? 1 then [2; 3; 5] else [20; 30; 50] in
+  let g := {| c06_nface := 3; c06_nnode := 5; c06_nedge := 7 |} in
+  let a := {| c06_shape := [3]; c06_dims := [0]; c06_name := 1; c06_grid := 2; c06_data := [1; 1; 1] |} in
+  let s := c06_grun areas_of 1 4 {| c06_stored_areas := None; c06_stored_jac := None |}
+                    [C06_op_assign_face_areas [1000; 1000; 1000]; C06_op_read_face_areas; C06_op_integrate 0 3 a] in
+  c06_stored_areas s = Some [1000; 1000; 1000] /\
+  exists r, c06_integrate_grid areas_of g s 1 4 a = C06_ok r /\ c06_data r = [10].
+Proof. cbv zeta. split; [reflexivity|]. eexists. split; [vm_compute; reflexivity|reflexivity]. Qed.
+
+Example c06_face_dim_nonvacuous :
+  exists r, c06_integrate_cur {| c06_nface := 2; c06_nnode := 2; c06_nedge := 2 |} [3; 4]
+              {| c06_shape := [2]; c06_dims := [0]; c06_name := 1; c06_grid := 2; c06_data := [1; 1] |} = C06_ok r
+            /\ c06_data r = [7].
+Proof. eexists. split; [vm_compute; reflexivity|reflexivity]. Qed.
